@@ -543,3 +543,55 @@ def run_reset_drains(run, P):
                 chk(f['loc'], env, ctx)
         solve(f, Env({}), on_event, on_exit, keys, R, key_fn=lambda e: (e.ts.get('reset'), e.ts.get('drain'), e.ts.get('done')))
     run.require(n >= 1 or run.fixture_mode, 'R-CNT-CON(g): no reset of con_active outside object construction found')
+
+
+def run_flush_order(run, P):
+    """(h) the slot is free before the held messages are looked at.  coap_session_connected(S) is the flush of S's delay queue: it sends
+    held Confirmables while con_active < NSTART.  Wherever it is called because an exchange ended -- the call is controlled by a test of
+    con_active -- the decrement for that exchange comes first: a decrement of con_active that is controlled by the same test dominates
+    the call.  Flushing with the finished exchange still counted releases nothing, and nothing flushes again afterwards (with NSTART 1
+    the held message is stuck until some unrelated exchange ends)."""
+    from core.prog import dominators, transitive_control_deps
+    run.rule('R-CNT-CON')
+    FLUSH = 'coap_session_connected'
+    n = 0
+    for f in sorted(P.lib_funcs(), key=lambda f: f['name']):
+        B = f['B']
+        calls = []
+        decs = []
+        for b in f['blocks']:
+            for i, ev in enumerate(b['elems']):
+                t = ev['e']
+                if t.get('k') == 'call' and t.get('fn') == FLUSH and ev.get('top', True):
+                    calls.append((b['id'], i, ev))
+                w = _write(t)
+                if w[0] == '--' or (w[0] is None and t.get('k') == 'un' and t.get('op') == 'post--' and isinstance(strip(t.get('e')), dict) and strip(t['e']).get('f') == FIELD):
+                    decs.append((b['id'], i, ev))
+        if not calls:
+            continue
+        dom = None
+        for cb, ci, cev in calls:
+            tcd = transitive_control_deps(f, cb)
+            gates = set()
+            for (bb, idx) in tcd:
+                c = (B[bb].get('term') or {}).get('cond')
+                if c is not None and any(isinstance(x, dict) and x.get('k') == 'mem' and x.get('f') == FIELD for x in walk(c)):
+                    gates.add(bb)
+            if not gates:
+                continue           # a connect-time call, not the flush after an exchange ended
+            n += 1
+            run.instance('R-CNT-CON', '%s: flush of the delay queue under a test of con_active' % f['name'])
+            if dom is None:
+                dom = dominators(f)
+            ok = False
+            for db, di, dev in decs:
+                if (db == cb and di < ci) or (db != cb and db in dom.get(cb, ())):
+                    dg = set(bb for (bb, idx) in transitive_control_deps(f, db))
+                    if dg & gates:
+                        ok = True
+            run.oblige('R-CNT-CON', ok, '%s:decrement-dominates-flush' % f['name'])
+            if not ok:
+                run.violation('R-CNT-CON', f['name'], cev['loc'], 'flush-before-decrement',
+                              'coap_session_connected() is called under a test of con_active, but no decrement of con_active under that test comes before it: the delay queue is '
+                              'looked at while the finished exchange still occupies its slot, nothing is released, and no later flush follows the decrement', [])
+    run.require(n >= (5 if run.cfg == 'base' else 3) or run.fixture_mode, 'R-CNT-CON(h): fewer than 5 flushes of the delay queue under a test of con_active found')
